@@ -214,6 +214,18 @@ def check_branches(eng, R, rule, cname, fname, target, branch_specs, what="", kn
     """branch_specs: [(exact guard, spec)]. If the function still has these guards, every branch is compared with its own formula. If the branching was rewritten,
     every assignment to the target must at least be one of the documented formulas (which formula belongs to which state can then not be decided)."""
     f = get_func(eng.p, cname, fname)
+    # path-sensitive reading first: temporaries chosen per branch and merged afterwards are the same thing as two assignments
+    ws = [(w[1:] if w.startswith("=") else w, spec) for w, spec in branch_specs]
+    node = eng.cnode(f)
+    try:
+        per_path = all(extract(f, "store", target, w, node=node) for w, _ in ws) and \
+            len({c for w, _ in ws for c, _, _ in extract(f, "store", target, w, node=node)}) >= len(ws)
+    except AnalysisError:
+        per_path = False
+    if per_path:
+        for w, spec in ws:
+            check(eng, R, rule, cname, fname, "store", spec, target=target, when=w, what=what, known=known)
+        return
     if all(extract(f, "assign", target, w) for w, _ in branch_specs):
         for w, spec in branch_specs:
             check(eng, R, rule, cname, fname, "assign", spec, target=target, when=w, what=what, known=known)
